@@ -397,7 +397,7 @@ def m_slice_get(E, st, fid, t, args, dest_ty):
     return out
 
 
-@model('core::slice::<impl [T]>::split_at_mut',
+@model(['core::slice::<impl [T]>::split_at_mut', 'core::slice::<impl [T]>::split_at'],
        'panics if mid > len; otherwise the two disjoint halves [0,mid) and [mid,len)')
 def m_split_at_mut(E, st, fid, t, args, dest_ty):
     s = _slice_of(E, st, args[0])
@@ -416,7 +416,9 @@ def m_split_at_mut(E, st, fid, t, args, dest_ty):
     z.add_le(lo, cut)
     if not z.sat:
         return out
-    v = ('tuple', (('ref', True, ('slice', mid, lo, cut)), ('ref', True, ('slice', mid, cut, hi))))
+    mu = t['callee']['name'].endswith('_mut')
+    v = ('tuple', (('ref', mu, ('slice', mid, lo, cut)), ('ref', mu, ('slice', mid, cut, hi))))
+    st.log('slice', mid, lo, cut)
     out.append(('ret', st, v))
     return out
 
